@@ -1298,8 +1298,9 @@ class DenseSquareMatrix(InvertibleMatrix, ExplicitArrayMatrix):
         if self._lu_and_piv is None or self._lu_transposed is None:
             return DenseSquareMatrix(scalar * self._array)
         old_lu, piv = self._lu_and_piv
-        # Multiply upper-triangle by scalar
-        new_lu = old_lu + (scalar - 1) * np.triu(old_lu)
+        # Multiply upper-triangle by scalar (assembled from the two triangles as
+        # old_lu + (scalar - 1) * triu(old_lu) cancels for scalars of small magnitude)
+        new_lu = np.tril(old_lu, -1) + scalar * np.triu(old_lu)
         return DenseSquareMatrix(
             scalar * self._array,
             (new_lu, piv),
@@ -1362,8 +1363,10 @@ class InverseLUFactoredSquareMatrix(InvertibleMatrix, ImplicitArrayMatrix):
 
     def _scalar_multiply(self, scalar: ScalarLike) -> InverseLUFactoredSquareMatrix:
         old_inv_lu, piv = self._inv_lu_and_piv
-        # Divide upper-triangle by scalar
-        new_inv_lu = old_inv_lu - (scalar - 1) / scalar * np.triu(old_inv_lu)
+        # Divide upper-triangle by scalar (assembled from the two triangles as
+        # old_inv_lu - (scalar - 1) / scalar * triu(old_inv_lu) cancels for scalars of
+        # large magnitude)
+        new_inv_lu = np.tril(old_inv_lu, -1) + np.triu(old_inv_lu) / scalar
         return InverseLUFactoredSquareMatrix(
             self._inv_array / scalar,
             (new_inv_lu, piv),
